@@ -10,6 +10,7 @@ import (
 	"go/ast"
 	"go/parser"
 	"go/token"
+	"go/types"
 	"os/exec"
 	"path/filepath"
 	"sort"
@@ -60,17 +61,27 @@ func c01OpPrecOrder(dep string) ([]string, error) {
 	return nil, fmt.Errorf("OpPrec const block not found in js/table.go")
 }
 
+// c01Map: keys are constants of the dependency's js.TokenType (named through whatever import name, alias constant or
+// value the source uses), values constants of js.OpPrec; the row is (name of the TokenType constant, numeric precedence).
 func c01Map(r *Repo, name string, order map[string]int) (string, error) {
-	e, err := r.FindVar("js", name)
+	e, err := r.TEnv()
 	if err != nil {
 		return "", err
 	}
-	cl, ok := e.(*ast.CompositeLit)
-	if !ok {
-		return "", fmt.Errorf("js.%s is not a composite literal", name)
+	kvs, p, mt, err := e.MapVar("js", name)
+	if err != nil {
+		return "", err
 	}
-	if mt, ok := cl.Type.(*ast.MapType); !ok || fmt.Sprint(mt.Key.(*ast.SelectorExpr).Sel.Name) != "TokenType" {
-		return "", fmt.Errorf("js.%s is not a map[js.TokenType]js.OpPrec literal", name)
+	isDep := func(t types.Type, want string) bool {
+		n, ok := types.Unalias(t).(*types.Named)
+		return ok && n.Obj().Name() == want && n.Obj().Pkg() != nil && n.Obj().Pkg().Path() == "github.com/tdewolff/parse/v2/js"
+	}
+	if !isDep(mt.Key(), "TokenType") || !isDep(mt.Elem(), "OpPrec") {
+		return "", fmt.Errorf("js.%s is not a map[js.TokenType]js.OpPrec any more (%s)", name, mt)
+	}
+	tokNames, err := e.ConstNames(mt.Key())
+	if err != nil {
+		return "", err
 	}
 	type row struct {
 		k string
@@ -78,25 +89,27 @@ func c01Map(r *Repo, name string, order map[string]int) (string, error) {
 	}
 	var rows []row
 	seen := map[string]bool{}
-	for _, el := range cl.Elts {
-		kv, ok := el.(*ast.KeyValueExpr)
+	for _, kv := range kvs {
+		kn, err := e.Int(p, kv.Key)
+		if err != nil {
+			return "", fmt.Errorf("js.%s: key: %v", name, err)
+		}
+		k, ok := tokNames[kn]
 		if !ok {
-			return "", fmt.Errorf("js.%s: element is not key:value", name)
+			return "", fmt.Errorf("js.%s: key %d is not a js.TokenType constant", name, kn)
 		}
-		ks, ok1 := kv.Key.(*ast.SelectorExpr)
-		vs, ok2 := kv.Value.(*ast.SelectorExpr)
-		if !ok1 || !ok2 {
-			return "", fmt.Errorf("js.%s: key/value is not a js.X selector", name)
+		v, err := e.Int(p, kv.Val)
+		if err != nil {
+			return "", fmt.Errorf("js.%s[%s]: %v", name, k, err)
 		}
-		p, ok := order[vs.Sel.Name]
-		if !ok {
-			return "", fmt.Errorf("js.%s: unknown precedence %s", name, vs.Sel.Name)
+		if v < 0 || int(v) >= len(order) {
+			return "", fmt.Errorf("js.%s[%s]: precedence %d is outside the js.OpPrec constants", name, k, v)
 		}
-		if seen[ks.Sel.Name] {
-			return "", fmt.Errorf("js.%s: duplicate key %s", name, ks.Sel.Name)
+		if seen[k] {
+			return "", fmt.Errorf("js.%s: duplicate key %s", name, k)
 		}
-		seen[ks.Sel.Name] = true
-		rows = append(rows, row{ks.Sel.Name, p})
+		seen[k] = true
+		rows = append(rows, row{k, int(v)})
 	}
 	sort.Slice(rows, func(i, j int) bool { return rows[i].k < rows[j].k })
 	var sb strings.Builder
